@@ -368,6 +368,114 @@ Proof.
   apply no_filepass_no_password; [exact interp_real_never_password|assumption|assumption].
 Qed.
 
+(* ================================================================== xls: totality *)
+Lemma take_n_length : forall s n d rest, take_n s n = Some (d, rest) ->
+  length s = (length d + length rest)%nat.
+Proof.
+  induction s as [|x s IH]; intros n d rest H; cbn [take_n] in H.
+  - destruct (n =? 0); [inversion H; reflexivity|discriminate].
+  - destruct (n =? 0); [inversion H; reflexivity|].
+    destruct (take_n s (n - 1)) as [[a b]|] eqn:E; [|discriminate].
+    inversion H. subst. cbn [length]. rewrite (IH _ _ _ E). reflexivity.
+Qed.
+
+Lemma collect_cont_never_panics : forall fuel s acc, collect_cont fuel s acc <> Panic.
+Proof.
+  induction fuel as [|f IH]; intros s acc; cbn [collect_cont]; [discriminate|].
+  destruct s as [|c0 [|c1 [|l0 [|l1 [|x body]]]]]; try discriminate.
+  destruct (u16 c0 c1 =? CONTINUE); [|discriminate].
+  destruct (take_n (x :: body) (u16 l0 l1)) as [[d r']|]; [apply IH|discriminate].
+Qed.
+
+(* fuel strictly above the length of the stream is never exhausted, and what is left over is
+   not longer than the stream *)
+Lemma collect_cont_fuel : forall fuel s acc, (length s < fuel)%nat ->
+  collect_cont fuel s acc <> OutOfFuel /\ forall a rest, collect_cont fuel s acc = Ok (a, rest) -> (length rest <= length s)%nat.
+Proof.
+  induction fuel as [|f IH]; intros s acc Hl; [lia|]. cbn [collect_cont].
+  destruct s as [|c0 [|c1 [|l0 [|l1 [|x body]]]]];
+    try (split; [discriminate|intros a rest H; inversion H; subst; lia]).
+  destruct (u16 c0 c1 =? CONTINUE);
+    [|split; [discriminate|intros a rest H; inversion H; subst; lia]].
+  destruct (take_n (x :: body) (u16 l0 l1)) as [[d r']|] eqn:E;
+    [|split; [discriminate|intros a rest H; discriminate]].
+  pose proof (take_n_length _ _ _ _ E) as Hlen. cbn [length] in *.
+  destruct (IH r' (acc ++ [d])) as [H1 H2]; [lia|]. split; [exact H1|].
+  intros a rest H. specialize (H2 a rest H). lia.
+Qed.
+
+(* RecordIter::next never panics, its internal fuel (the length of what follows the record) is
+   never exhausted, and every record consumes at least its four header bytes *)
+Lemma next_record_total : forall s o, next_record s = Some o ->
+  o <> Panic /\ o <> OutOfFuel /\ forall r rest, o = Ok (r, rest) -> (length rest + 4 <= length s)%nat.
+Proof.
+  intros s o H. unfold next_record in H.
+  destruct s as [|t0 [|t1 [|l0 [|l1 body]]]]; try discriminate;
+    try (inversion H; subst; repeat split; try discriminate; intros r rest H'; discriminate).
+  destruct (take_n body (u16 l0 l1)) as [[d next]|] eqn:E;
+    [|inversion H; subst; repeat split; try discriminate; intros r rest H'; discriminate].
+  pose proof (take_n_length _ _ _ _ E) as Hlen. cbn [length].
+  destruct (starts_cont next) eqn:Es.
+  - inversion H as [Ho]. clear H.
+    (* the first turn of the loop consumes at least four bytes: fuel = length next suffices *)
+    assert (Hc : collect_cont (length next) next [] <> OutOfFuel /\ forall a rest, collect_cont (length next) next [] = Ok (a, rest) ->
+                                (length rest <= length next)%nat).
+    { destruct next as [|c0 [|c1 [|l0' [|l1' [|x body']]]]]; try discriminate.
+      cbn [length collect_cont]. cbn [starts_cont] in Es. rewrite Es.
+      destruct (take_n (x :: body') (u16 l0' l1')) as [[d' r']|] eqn:E';
+        [|split; [discriminate|intros a rest H; discriminate]].
+      pose proof (take_n_length _ _ _ _ E') as Hlen'. cbn [length] in Hlen'.
+      destruct (collect_cont_fuel (S (S (S (S (length body'))))) r' ([] ++ [d'])) as [H1 H2]; [lia|].
+      split; [exact H1|]. intros a rest H. specialize (H2 a rest H). lia. }
+    destruct Hc as [Hc1 Hc2]. pose proof (collect_cont_never_panics (length next) next []) as Hp.
+    destruct (collect_cont (length next) next []) as [[a b]|e| |]; cbn [obind];
+      repeat split; try discriminate; try contradiction.
+    intros r rest H'. inversion H'. subst. cbn [snd]. specialize (Hc2 a rest eq_refl). lia.
+  - inversion H. subst. repeat split; try discriminate.
+    intros r rest H'. inversion H'. subst. lia.
+Qed.
+
+Section XlsTotal.
+Variable interp : frec -> outcome unit.
+Hypothesis interp_total : forall r, interp r <> Panic /\ interp r <> OutOfFuel.
+
+Lemma globals_loop_total : forall fuel s, (length s < fuel)%nat ->
+  globals_loop interp fuel s <> Panic /\ globals_loop interp fuel s <> OutOfFuel.
+Proof.
+  induction fuel as [|f IH]; intros s Hl; [lia|]. cbn [globals_loop].
+  destruct (next_record s) as [o|] eqn:En; [|split; discriminate].
+  destruct (next_record_total s o En) as (Hp & Hf & Hsh).
+  destruct o as [[r rest]|e| |]; cbn [obind fst snd]; try (split; discriminate); try contradiction.
+  destruct (f_typ r =? FILEPASS); [split; discriminate|].
+  destruct (f_typ r =? EOF_REC); [split; discriminate|].
+  destruct (interp_total r) as [Hi1 Hi2].
+  destruct (interp r) as [[]|e| |]; cbn [obind]; try (split; discriminate); try contradiction.
+  apply IH. specialize (Hsh r rest eq_refl). lia.
+Qed.
+
+(* MAIN (totality, xls): on ANY bytes the globals loop neither panics nor runs out of the fuel
+   xls_globals gives it *)
+Theorem xls_globals_total : forall s,
+  xls_globals interp s <> Panic /\ xls_globals interp s <> OutOfFuel.
+Proof. intros s. unfold xls_globals. apply globals_loop_total. lia. Qed.
+End XlsTotal.
+
+Lemma interp_real_total : forall r, interp_real r <> Panic /\ interp_real r <> OutOfFuel.
+Proof.
+  intros r. unfold interp_real.
+  destruct (f_typ r =? 66).
+  { destruct (f_data r) as [|a [|b l]]; try (split; discriminate).
+    destruct (existsb _ _); split; discriminate. }
+  destruct (f_typ r =? 34). { destruct (f_data r) as [|a [|b l]]; split; discriminate. }
+  destruct (f_typ r =? 2057). { destruct (f_data r) as [|a [|b l]]; split; discriminate. }
+  destruct (f_typ r =? 224). { destruct (f_data r) as [|a [|b [|c [|d l]]]]; split; discriminate. }
+  destruct (unmodelled_typ (f_typ r)); split; discriminate.
+Qed.
+
+Corollary xls_globals_real_total : forall s,
+  xls_globals interp_real s <> Panic /\ xls_globals interp_real s <> OutOfFuel.
+Proof. exact (xls_globals_total interp_real interp_real_total). Qed.
+
 (* ================================================================== ods manifest *)
 Lemma str_eqb_refl : forall a, str_eqb a a = true.
 Proof.
@@ -569,4 +677,26 @@ Proof.
   destruct (negb (str_eqb (firstn 46 m) MIMETYPE)); [discriminate|].
   destruct mf as [evs|]; [|discriminate].
   apply no_encryption_data_no_password. apply H. reflexivity.
+Qed.
+
+(* MAIN (totality, ods): the manifest scan and the gate in front of it never panic, on any
+   mimetype bytes and any event list (they have no fuel) *)
+Theorem manifest_scan_total : forall evs,
+  manifest_scan evs <> Panic /\ manifest_scan evs <> OutOfFuel.
+Proof.
+  assert (Hin : forall evs, inner_scan evs <> Panic /\ inner_scan evs <> OutOfFuel).
+  { induction evs as [|e evs IH]; cbn [inner_scan]; [split; discriminate|].
+    destruct e as [q|q| |]; try exact IH; [|split; discriminate].
+    destruct (str_eqb (local_name q) ENCRYPTION_DATA); [split; discriminate|exact IH]. }
+  induction evs as [|e evs IH]; cbn [manifest_scan]; [split; discriminate|].
+  destruct e as [q|q| |]; try exact IH; [|split; discriminate].
+  destruct (str_eqb (local_name q) FILE_ENTRY); [apply Hin|exact IH].
+Qed.
+
+Theorem ods_new_total : forall mt mf, ods_new mt mf <> Panic /\ ods_new mt mf <> OutOfFuel.
+Proof.
+  intros mt mf. unfold ods_new. destruct mt as [m|]; [|split; discriminate].
+  destruct (length m <? 46)%nat; [split; discriminate|].
+  destruct (negb (str_eqb (firstn 46 m) MIMETYPE)); [split; discriminate|].
+  destruct mf as [evs|]; [apply manifest_scan_total|split; discriminate].
 Qed.
